@@ -51,6 +51,7 @@ MUC_DEVS = {
     "DirectFirstChild": ("AlphaInv", "C18_DirectInviteExactlyOnce"),   # the same for the direct-invitation handler
     "StaleBlocks": ("Alpha1", "C18_NoStall"),             # pinned code: stale hand-off entry blocks the next join
     "ErrHandoverBlocks": ("AlphaSplit", "C06_ServeNotWedged"),   # sender goroutine offers the error reply without watching the context
+    "ErrReplyLeaked": ("AlphaShapeQ", "C06_ServeNotWedged"),     # the reply decoder returns on its error path without closing the reply
 }
 C18_DEVS = ["BareLookup", "DepartLost", "NoReRegister", "JoinedBare", "InvitePerMessage", "InviteFirstChild", "DirectFirstChild", "StaleBlocks"]
 
@@ -89,10 +90,16 @@ def muc_design_runs(ctx, specs, devs):
     return runs, caught
 
 
+def shapes_spec(quick):
+    """design check of the error replies' shapes (well-formed / malformed, whole or in two pieces)"""
+    return ("MCMUC_shapes", dict(rooms='{"r1"}', ids="Ids3", maxenv=5 if quick else 6, alpha="AlphaShapeQ" if quick else "AlphaShape", splits="TRUE"))
+
+
 def muc_design_check(ctx, quick, devs=None):
     specs = [("MCMUC_one_room", dict(rooms='{"r1"}', ids="Ids3", maxenv=6 if quick else 8, alpha="Alpha1")),
              # every invitation message of AlphaInv: position of the payload among the children, direct / legacy element, 0-2 invites
-             ("MCMUC_invites", dict(rooms='{"r1"}', ids="Ids2", maxenv=4 if quick else 5, alpha="AlphaInv"))]
+             ("MCMUC_invites", dict(rooms='{"r1"}', ids="Ids2", maxenv=4 if quick else 5, alpha="AlphaInv")),
+             shapes_spec(quick)]
     if not quick:
         specs.append(("MCMUC_two_rooms", dict(rooms='{"r1", "r2"}', ids="Ids3", maxenv=5, alpha="Alpha2")))
         specs.append(("MCMUC_split", dict(rooms='{"r1"}', ids="Ids3", maxenv=6, alpha="AlphaSplit", splits="TRUE")))
@@ -108,22 +115,46 @@ EMIT_CFG = '''CONSTANTS
   InvFull = %(invfull)s
   MaxSplit = %(split)d
   Cuts = %(cuts)s
+  MaxShape = %(shape)d
+  ErShapes = %(shapes)s
+  OnlyShaped = %(onlyshaped)s
+  WithTail = %(tail)s
   OutFile = "scripts.ndjson"
 SPECIFICATION Spec
 '''
 
 
+# shapes of an error reply (tla/MUC.tla WellFormedShapes / MalformedShapes, driver erBody) other than the plain "wf"
+ER_SHAPES_WF = ["nox", "ux", "pre", "post"]
+ER_SHAPES_MAL = ["bare", "noerr", "wrongns", "empty", "badby", "unktype", "text"]
+ER_SHAPES = ER_SHAPES_WF + ER_SHAPES_MAL
+
+
+def shaped(maxlen, split=0, cuts="{1, 2, 3}"):
+    """the emission option set "one error reply of every other shape, followed by a second exchange
+    that must succeed" for scripts up to maxlen steps (+ the appended exchange)"""
+    o = {"shape": 1, "shapes": ER_SHAPES, "onlyshaped": True, "tail": True}
+    if split:
+        o.update(split=split, cuts=cuts)
+    return ('{"r1"}', maxlen, 3, 0, o)
+
+
 def muc_emit(ctx, sets):
     """sets: list of (rooms, maxlen, maxcalls, noise[, options]); options: invfull (the noise is the
-    full invitation alphabet), split (number of stanzas delivered in two pieces), cuts (where);
-    the emissions run side by side; returns the de-duplicated scenario list"""
+    full invitation alphabet), split (number of stanzas delivered in two pieces), cuts (where),
+    shape (number of error replies of a shape out of `shapes` other than the plain well-formed
+    one), onlyshaped (only the scripts with such a reply), tail (each script also with a second,
+    well-formed exchange appended); the emissions run side by side; returns the de-duplicated
+    scenario list"""
     seen = set()
     out = []
 
     def emit(i, rooms, maxlen, maxcalls, noise, opt=None):
         opt = opt or {}
         return ctx.tlc("EmitMUC", EMIT_CFG % dict(rooms=rooms, maxlen=maxlen, maxcalls=maxcalls, noise=noise, invfull="TRUE" if opt.get("invfull") else "FALSE",
-                                                  split=opt.get("split", 0), cuts=opt.get("cuts", "{1, 3}")),
+                                                  split=opt.get("split", 0), cuts=opt.get("cuts", "{1, 3}"),
+                                                  shape=opt.get("shape", 0), shapes="{%s}" % ", ".join('"%s"' % x for x in opt.get("shapes", [])),
+                                                  onlyshaped="TRUE" if opt.get("onlyshaped") else "FALSE", tail="TRUE" if opt.get("tail") else "FALSE"),
                        workers=1, timeout=900, name="EmitMUC_%d" % i)
 
     with ThreadPoolExecutor(max_workers=4) as ex:
@@ -141,20 +172,22 @@ def muc_emit(ctx, sets):
                 seen.add(line)
                 out.append(json.loads(line))
                 n += 1
-        ctx.log("TLC emitted %d new scripts (rooms %s, length <= %d, calls <= %d, noise <= %d%s%s) in %.1fs" % (
+        ctx.log("TLC emitted %d new scripts (rooms %s, length <= %d, calls <= %d, noise <= %d%s%s%s) in %.1fs" % (
             n, rooms, maxlen, maxcalls, noise, " from the full invitation alphabet" if opt.get("invfull") else "",
-            ", <= %d stanza delivered in two pieces" % opt["split"] if opt.get("split") else "", r.wall))
+            ", <= %d stanza delivered in two pieces" % opt["split"] if opt.get("split") else "",
+            ", one error reply of %d other shapes, each also followed by a second exchange" % len(opt["shapes"]) if opt.get("shape") else "", r.wall))
         os.remove(f)
     return out
 
 
-def S(ty, room="r1", nick="me", call="-", n=0, lay=None, pw=False, cut=0):
+def S(ty, room="r1", nick="me", call="-", n=0, lay=None, pw=False, cut=0, shape=None):
     """the room sends a stanza; cut != 0: only its first piece for now (1 = up to the end of the start
     tag, 2 = half of the bytes, 3 = all but the end tag), the remainder with the next R()"""
     if lay is None:
         lay = ["u"] if ty == "inv" else []
     return {"op": "send", "room": "-", "call": "-", "cut": cut,
-            "st": {"ty": ty, "room": room, "nick": nick if ty != "inv" else "-", "call": call, "n": n, "lay": lay, "pw": pw}}
+            "st": {"ty": ty, "room": room, "nick": nick if ty != "inv" else "-", "call": call, "n": n, "lay": lay, "pw": pw,
+                   "shape": (shape or "wf") if ty == "er" else "-"}}
 
 
 def R():
@@ -180,7 +213,7 @@ def muc_explore_scenarios(tier):
         [C("join"), S("av"), C("leave"), S("er", call="c2")],
         [C("join", "r1"), C("join", "r2"), S("av", "r2"), S("av", "r1")],
         [C("join"), S("av"), S("un"), C("rejoin"), S("av"), C("leave"), S("un")],   # kicked, back, leave
-    ] + muc_leave_cancel_scenarios(tier)
+    ] + muc_leave_cancel_scenarios(tier) + muc_shape_scenarios(tier)
     if tier == "thorough":
         s += [
             [C("join"), S("av"), C("rejoin"), S("un"), S("av")],
@@ -212,6 +245,22 @@ def muc_leave_cancel_scenarios(tier):
             pre + [S("un", cut=1), X("c2"), R()],
             pre + [S("er", call="c2", cut=1), X("c2"), R(), C("rejoin"), S("av")],
             [C("join"), S("er", call="c1", cut=1), X("c1"), R()],
+        ]
+    return s
+
+
+def muc_shape_scenarios(tier):
+    """a join / a leave answered by an error presence that carries no decodable error, then a second
+    exchange on the same session which must succeed (the reply was released, the serve loop goes on)"""
+    s = [
+        [C("join"), S("er", call="c1", shape="bare"), C("rejoin"), S("av")],
+        [C("join"), S("av"), C("leave"), S("er", call="c2", shape="badby"), C("rejoin"), S("av")],
+    ]
+    if tier == "thorough":
+        s += [
+            [C("join"), S("er", call="c1", shape="noerr", cut=1), X("c1"), R(), C("rejoin"), S("av")],
+            [C("join"), S("av"), C("leave"), S("er", call="c2", shape="empty"), C("leave"), S("un")],
+            [C("join"), S("av"), C("leave"), S("er", call="c2", shape="post", cut=3), R(), C("rejoin"), S("av")],
         ]
     return s
 
@@ -349,8 +398,20 @@ def muc_explain(tr, hw):
             return "C18_JoinErr", "%s %s returned stanza error %s which the room did not send for that request" % (kind, c, ev.get("cond"))
         if ev["o"] == "ctx":
             return "C18_CtxErr", "%s %s returned its context's error although the context had not ended" % (kind, c)
+        if ev["o"] == "other":
+            return "C18_JoinErr", "%s %s returned an error that is neither the room's stanza error nor its context's (%s) although the room sent no malformed error reply to that request" % (kind, c, ev.get("text"))
         return "C06_NoPanic" if ev["o"] == "panic" else "C18_Outcome", "%s %s ended with %s: %s" % (kind, c, ev["o"], ev.get("text"))
     if k == "quiet":
+        sent = [e for e in tr if e["_line"] < hw and e.get("ev") == "send"]
+        nh = len([e for e in tr if e["_line"] < hw and e.get("ev") == "handled"])
+        callstall = [c for c in pend if c in cancelled or c not in wire]
+        if nh < len(sent) and not callstall:
+            # a whole stanza is unprocessed and nothing can move: the serve loop is stopped
+            prev = sent[nh]["st"]
+            what = "%s(%s%s)" % (prev["ty"], prev["room"], (" answering %s, shape %s" % (prev["call"], prev.get("shape"))) if prev["ty"] == "er" else "/" + prev["nick"])
+            rets = ["%s returned %s" % (e["c"], e.get("text") or e.get("cond") or e["o"]) for e in tr if e["_line"] < hw and e.get("ev") == "ret"]
+            return "C06_NoStall", "the serve loop is stopped: at quiescence the stanza %s which the room sent completely is still unprocessed (%d of %d stanzas processed%s%s) - a reply handed to a caller was never released, or a handler never returned" % (
+                what, nh, len(sent), "; " + "; ".join(rets) if rets else "", "; still waiting: " + ", ".join(pend) if pend else "")
         parts = []
         for c in pend:
             kind = calls[c][0]
@@ -434,8 +495,8 @@ def script_text(sc):
             inv = ""
             if st["ty"] == "inv":
                 inv = " %s n=%d%s" % ("".join(st.get("lay") or ["u"]), st["n"], " pw" if st.get("pw") else "")
-            out.append("%s(%s%s%s%s)" % (st["ty"], st["room"], "/" + st["nick"] if st["nick"] != "-" else "", (" " + st["call"]) if st["call"] != "-" else inv,
-                                         " cut=%d" % s["cut"] if s.get("cut") else ""))
+            out.append("%s(%s%s%s%s%s)" % (st["ty"], st["room"], "/" + st["nick"] if st["nick"] != "-" else "", (" " + st["call"]) if st["call"] != "-" else inv,
+                                           " " + st["shape"] if st.get("shape", "-") not in ("-", "wf") else "", " cut=%d" % s["cut"] if s.get("cut") else ""))
         elif s["op"] == "rest":
             out.append("rest")
         elif s["op"] == "cancel":
@@ -530,7 +591,7 @@ def run_c06_muc_part(ctx):
     cancellation.  Violations are reported under the calling check's property (C06); the pure
     membership / callback clauses of C18 are left to C18."""
     quick = ctx.tier == "quick"
-    mcr = None
+    mcr = mcs = None
     if ctx.replay:
         case = json.load(open(ctx.replay))["case"]
         if case.get("family") != "muc":
@@ -541,24 +602,32 @@ def run_c06_muc_part(ctx):
         # design check of the hand-over of an error reply (session -> sender goroutine -> call), the room
         # delivering stanzas whole or in two pieces; the deviation "error offered without watching the
         # context" must wedge the serve loop
-        (mcr,), _ = muc_design_runs(ctx, [("MCMUC_split", dict(rooms='{"r1"}', ids="Ids3", maxenv=6 if quick else 7, alpha="AlphaSplit", splits="TRUE"))],
-                                    ["ErrHandoverBlocks"])
+        # ... and of the shapes of an error reply (well-formed / malformed): whatever stands inside, the reply
+        # is released; the deviation "decoder returns on its error path without closing the reply" must wedge it too
+        (mcr, mcs), _ = muc_design_runs(ctx, [("MCMUC_split", dict(rooms='{"r1"}', ids="Ids3", maxenv=6 if quick else 7, alpha="AlphaSplit", splits="TRUE")),
+                                              shapes_spec(quick)],
+                                        ["ErrHandoverBlocks", "ErrReplyLeaked"])
         base = muc_explore_scenarios(ctx.tier)
         lc = muc_leave_cancel_scenarios(ctx.tier)
-        scen = [x for x in base if x["steps"] not in lc]
+        sh = muc_shape_scenarios(ctx.tier)
+        scen = [x for x in base if x["steps"] not in lc and x["steps"] not in sh]
         if quick:
             scen = scen[:6]
-        scen += [{"mode": "explore", "steps": x} for x in lc] + [{"mode": "seq", "steps": x} for x in lc]
-        # protocol level: every script up to the bound, also with one stanza delivered in two pieces
-        seq = muc_emit(ctx, [('{"r1"}', 4 if quick else 5, 3, 0), ('{"r1"}', 5 if quick else 6, 3, 0, {"split": 1, "cuts": "{1, 2, 3}" if quick else "{1, 3}"})])
-        files, summ = muc_run(ctx, scen + seq, "c06muc", maxpre=1, maxruns=40 if quick else 400)
+        scen += [{"mode": "explore", "steps": x} for x in lc + sh] + [{"mode": "seq", "steps": x} for x in lc]
+        # protocol level: every script up to the bound, also with one stanza delivered in two pieces, and with one
+        # error reply of every other shape (each such script also continued by a second exchange that must succeed)
+        seq = muc_emit(ctx, [('{"r1"}', 4 if quick else 5, 3, 0), ('{"r1"}', 5 if quick else 6, 3, 0, {"split": 1, "cuts": "{1, 2, 3}" if quick else "{1, 3}"}),
+                             shaped(4 if quick else 5)])
+        scen = scen + seq
+        files, summ = muc_run(ctx, scen, "c06muc", maxpre=1, maxruns=40 if quick else 400)
     tr, meta = merge_traces(ctx, files, "c06muc-trace.ndjson")
     rej, r = muc_validate(ctx, tr, name="TrMUC_c06", c06only=True)
     per = muc_report(ctx, tr, meta, rej, skip=C18_ONLY, relabel=C06_LABEL)
     ctx.log("C06/muc: %d schedules (%d distinct traces, %d events), hooks %s; TLC validated in %.1fs: %d rejected %s" % (
         summ["evaluations"], summ["traces"], summ["events"], "on" if summ["hooks"] else "OFF (tree without yield points: windows not forced)",
         r.wall, len(rej), per or ""))
-    return {"muc_split_design_states": mcr.distinct if mcr else 0,
+    return {"muc_split_design_states": mcr.distinct if mcr else 0, "muc_shapes_design_states": mcs.distinct if mcs else 0,
+            "muc_error_reply_shape_scripts": len([x for x in scen if any((st.get("st") or {}).get("shape", "-") not in ("-", "wf") for st in x["steps"])]),
             "muc_schedules_run": summ["evaluations"], "muc_traces_validated": summ["traces"], "muc_trace_events": summ["events"],
             "muc_trace_states": r.distinct, "muc_rejected": len(rej), "muc_hooks": summ["hooks"], "muc_rejections_by_clause": per}
 
